@@ -24,9 +24,21 @@
      Parse_valid_partial     C04, tree clause: the final tree is the composition of a STRUCTURALLY VALID block tree
                              (Spec.Valid.structurally_valid: containment, root, heading levels, table shape and column
                              counts) with forests all of whose values are inline kinds, and itself satisfies the root,
-                             heading-level and table-shape clauses.  NOT proved (Parse_valid_full_statement): the
-                             containment relation of Node::validate below the leaves and the column-count equation for
-                             the final tree
+                             heading-level and table-shape clauses
+     Parse_valid_partial2    C04, tree clause, ALL of Spec.Valid.structurally_valid for the final tree (containment at every
+                             edge above and below the leaves, root, heading levels, lists, table shape, the column-count
+                             equation, literal kinds are leaves), under ONE premise about the block tree:
+                             Spec.ParseValidSpec.bcells_ok, the content of every TableCell holds neither CR nor LF
+     Parse_valid_no_table    the same WITHOUT premise when extension.table is off
+     Parse_inline_forest_valid / Parse_post_forest_valid / Parse_forest_meaning
+                             containment below the leaves: every forest parse_inlines returns, and every forest
+                             postprocess_block makes of one, consists of trees valid at every edge whose roots a Paragraph
+                             and a Heading accept, and a TableCell too when the input holds no CR / LF
+     Parse_valid_report_sound  the executable report tools/checks/c04.py evaluates (premise, conclusion) is sound
+                             NOT proved (Parse_valid_full_statement): the premise bcells_ok for every input, i.e. that
+                             table.rs::row cuts cells free of line ends out of its line (scanners::table_cell excludes CR
+                             and LF) and that the block phase never appends a line to a TableCell.  It is evaluated on
+                             every generated document of the C04 run (driver op `pvalid`)
      Parse_line_invariance   C08 for the whole pipeline: without a front matter delimiter, equal lines and equal
                              reference budget max_ref_size(total_size) give the same result (tree or panic)
    Props/ParseMore.v: Parse_final_tree_sp_shape (Parser_shape for final_tree_sp), Parse_final_tree_sp_none (final_tree_sp with no
@@ -122,3 +134,49 @@ Example Parse_example :
     s2 t && s3 t && s4 t && s7 t && s6w t = true /\
     parse_document_model ex_o ex_u (to_crlf ex_doc) = Ok t.
 Proof. exact parse_example. Qed.
+
+(* ================================================================== C04, the tree clause for the final tree (second wave) *)
+From V Require Import Spec.ParseValidSpec Proofs.ParseValidInl Proofs.ParseValidTree Proofs.ParseValid.
+
+(* containment below the leaves.  ivt nb n: every value of n is an inline value, a node of a literal kind (Text, SoftBreak,
+   LineBreak, Code, HtmlInline, FootnoteReference, Math) has no children, and with nb = true no SoftBreak / LineBreak occurs *)
+Theorem Parse_inline_forest_valid : forall nb memo o u inp lo sl refmap maxref rs0 ch rs,
+  (nb = true -> no_nl inp = true) ->
+  parse_inlines memo o u inp lo sl refmap maxref rs0 = Ok (ch, rs) -> forallb (ivt nb) ch = true.
+Proof. exact pv_parse_inlines_tree7. Qed.
+Print Assumptions Parse_inline_forest_valid.
+
+Theorem Parse_post_forest_valid : forall nb o ctx children ch' eff,
+  forallb (ivt nb) children = true -> postprocess_block o ctx children = Ok (ch', eff) -> forallb (ivt nb) ch' = true.
+Proof. exact pv_postprocess_tree7. Qed.
+Print Assumptions Parse_post_forest_valid.
+
+Theorem Parse_forest_meaning : forall nb n, ivt nb n = true ->
+  valid n = true /\ child_allowed Paragraph n = true /\ (forall l s, child_allowed (Heading l s) n = true) /\
+  (nb = true -> child_allowed TableCell n = true).
+Proof. exact ivt_meaning. Qed.
+Print Assumptions Parse_forest_meaning.
+
+(* the whole tree clause, under the premise on the cells of the block tree *)
+Theorem Parse_valid_partial2 : forall o u x t,
+  parse_document_model o u x = Ok t ->
+  exists r, parse_blocks (bopts_of o u) x = Ok r /\ (bcells_ok (br_root r) = true -> structurally_valid t = true).
+Proof. exact parse_valid_cells. Qed.
+Print Assumptions Parse_valid_partial2.
+
+Theorem Parse_valid_no_table : forall o u x t,
+  po_table o = false -> parse_document_model o u x = Ok t -> structurally_valid t = true.
+Proof. exact parse_valid_no_table. Qed.
+Print Assumptions Parse_valid_no_table.
+
+Theorem Parse_valid_report_sound : forall o u x c v,
+  parse_valid_report o u x = Some (c, v) -> c = true -> v = true.
+Proof. exact parse_valid_report_sound. Qed.
+Print Assumptions Parse_valid_report_sound.
+
+(* non-vacuity: the document of Parse_example (a table with strikethrough in a cell, footnotes, a task item) satisfies the
+   premise and the conclusion; a cell whose text is followed by a backslash does too (no LineBreak is made in a cell) *)
+Example Parse_valid_example :
+  parse_valid_report ex_o ex_u ex_doc = Some (true, true) /\
+  parse_valid_report ex_o ex_u (B "| a\ |" ++ [x0a] ++ B "|---|" ++ [x0a] ++ B "| b  |" ++ [x0a]) = Some (true, true).
+Proof. vm_compute. split; reflexivity. Qed.
